@@ -2,13 +2,22 @@ PROP = dict(
     module="M3d.Props.C17",
     corr=dict(quick=300, thorough=4000),
     gen=["Binomial", "Kernels"],
-    tie_modules=["M3d.Lemmas.KernelsTieNumeric"],
+    tie_modules=["M3d.Lemmas.KernelsTieNumeric", "M3d.Lemmas.KernelsTieRotation"],
     corr_theorems=(
         "exact mode (q): the driver prints the SPECIFICATION wherever M3d.C17 proves the faithful model equal to it — "
         "bezier_eval_eq_decasteljau (bez eval -> de Casteljau), bezier_split_eval (bez spliteval), segment_curve_eval (seg eval -> arclength walk), "
         "mat{2,3}_inverse_mul/mul_inverse (invmul -> identity), divide_root (divrootid -> 0), canonical_angle_congruent/angle_dist_circular (angle), "
         "search_best_of_samples/line_search_best_of_samples/grid*_best_of_samples/rls_best_of_samples/gss_best_of_samples (ls g2 g3 rls gss: result and full evaluation trace), joined_curve_eval, bisection_search_bracket; "
-        "bit mode (f): the same generic models run at Float, same operations in the same order; kind resid: validation only"
+        "bit mode (f): the same generic models run at Float, same operations in the same order; "
+        "scale covariance (scov.f, DECIDING, bit for bit): the real outputs on 2^k*M must equal the real outputs on M scaled by the exponents of "
+        "mat2_smul_inverse/mat3_smul_inverse (Inverse: -1), mat{2,3,4}_smul_det (Det: n), mat4_smul_charpoly (CharPoly coefficient i: 4-i), "
+        "mat2_smul_charpoly + mat2_smul_eigenpair (Matrix2.Eigenvalues, symEigDecomp: 1), mat_smul_gram + mat2_svd_smul (Matrix2.SVD: U, V 0, S 1) - "
+        "multiplication by a power of two is exact, so the verdict on M (faithful models for Inverse/Det/CharPoly; resid.v for SVD/Eigenvalues) carries to every scale; "
+        "the m2/m3/m4 kinds themselves are also generated at scales 2^k (k in [-40,40]) and decided by the Rat/Float models directly; "
+        "Matrix2.Eigenvalues / symEigDecomp / SVD (eig2.q, eig2.f, symeig2.f, svd2.f, DECIDING): the faithful models M2.eigenvalues / symEigDecomp / svd (Model/Svd2.lean) run at Rat "
+        "(square discriminants) and at Float bit for bit on arbitrary, rank-one, conformal, diagonal, tiny-integer matrices at every scale; mat2_eigenvalues_real/_complex, mat2_sym_disc_nonneg, "
+        "mat2_symEigDecomp_reconstructs and mat2_svd_reconstructs prove that these models reconstruct EVERY matrix (U S V^T = M, U, V orthogonal, S sorted, non-negative); "
+        "kind resid (incl. *_scaled with residuals RELATIVE to the matrix norm, rot2/rot3): validation only"
     ),
     rule=(
         "cases from one PRNG seed: integer matrices with det +-2^k (shears of a power-of-two diagonal) and small dyadic matrices; dyadic polynomials with forced "
@@ -16,21 +25,29 @@ PROP = dict(
         "of both signs against the exact rational value of the double 2*pi; control polygons of 0..17 points (every Eval branch: panic, 3 closed forms, every table "
         "row, recursive fallback) at dyadic t sized so that float64 arithmetic is exact, and at arbitrary doubles in bit mode; axis-aligned power-of-two polylines "
         "(exact) and Pythagorean/generic polylines (bit mode) incl. the L-shape at t=1/4; joined curves; table objectives (piecewise constant, arbitrary shape) "
-        "for Line/Grid2D/Grid3D/RecursiveLineSearch with even and odd stops and 0-3 recursions, plus spikes sitting on/next to the first or last stop (clamped refinement window), GSS, bisection; polynomials lead*prod(x-r_i)*prod((x-h)^2+k) of degree 1-8 with known dyadic roots and BOTH signs of the leading coefficient (expected roots computed by the driver); Bezier.Length vs chord sum of Eval and vs Split halves (closed, repeated, collinear, tiny, point polygons); distinct = distinct operation lines"
+        "for Line/Grid2D/Grid3D/RecursiveLineSearch with even and odd stops and 0-3 recursions, plus spikes sitting on/next to the first or last stop (clamped refinement window), GSS, bisection; polynomials lead*prod(x-r_i)*prod((x-h)^2+k) of degree 1-8 with known dyadic roots and BOTH signs of the leading coefficient (expected roots computed by the driver); Bezier.Length vs chord sum of Eval and vs Split halves (closed, repeated, collinear, tiny, point polygons); every matrix family (inverse, det, mulcolinv, invmul, mul, charpoly; SVD 2/3/4, Eigenvalues, symEigDecomp, LeastSquares3, SparseCholesky incl. ring patterns with fill-in; rotations) ALSO at dyadic scales 2^k, k in [-40,40] (a third at k=0, small and large scales over-weighted), symmetric and non-symmetric 3x3 with known real eigenvalues, numerical and model2d/model3d twins; distinct = distinct operation lines"
     ),
     trusted=[
         "regenerated, not hand-written: lean/M3d/Gen/Kernels.lean (Go->Lean translator harness/hlib/go2lean, run on the current "
         "source on every check) contains numerical/matrix2.go, matrix3.go, matrix4.go and vecs.go; M3d.KernelsTie.Numeric.* re-prove "
         "against it that Det, Inverse (through InvertInPlaceDet and the in-place Scale loop), Mul, MulColumn, MulColumnInv, "
         "Transpose, Add of Matrix2/3 and Det, Mul, Transpose of Matrix4 are the model functions of the reconstruction theorems",
+        "regenerated and proved about directly (M3d.KernelsTie.Rotation.*, an obligation of C17): numerical/model3d NewMatrix3Rotation, numerical/model2d NewMatrix2Rotation, "
+        "Vec3/Coord3D.OrthoBasis as generated from the source are orthogonal with determinant 1, fix the axis, and R(-t) = R(t)^T (math.Cos/Sin/Sqrt uninterpreted, "
+        "constrained by cos^2+sin^2=1 and sqrt(x)^2=x); numerical.Vec2/3/4 Add/Sub/Scale/Dot/Cross/Sum/DistSquared/Norm/Dist/Normalize/ProjectOut are the V2/V3/V4 model functions (KernelsTieNumeric)",
+        "modelled, not tied by regeneration: the coefficient computation inside Matrix2/Matrix3.Eigenvalues (M2.eigCoeffs, M3.eigCoeffs: locals of a function that goes on through complex128/cmplx.Pow, "
+        "outside the translator's subset) - mat3_eigen_charpoly / mat3_smul_charpoly are about these models; the code is tied to them only through resid.v eigvals3* (validation) and scov.f eig2 (deciding, 2x2)",
         "modelled, not verified: sort.SearchFloat64s as 'least index with a[i] >= x' (true on the sorted cumulative offsets); math.Mod as the exact x - trunc(x/y)*y; math.Sqrt / int() / trunc as function parameters constrained by their defining property in the theorems",
         "Coord/Vec Scale/Add/Sub are component-wise, so Bezier kernels are modelled per coordinate (both coordinates are compared by the correspondence)",
         "Polynomial.Mul is modelled as the sum of shifted rows (equal to the Go double loop over any commutative ring; compared in exact mode only)",
-        "VALIDATION ONLY, not proved: BezierCurve.Length (tolerance 1e-5*L+1e-7 against Eval chord sums and Split halves), RealRoots on known-root polynomials (tolerance 2^-17, kind realroots.q); eigenvalues/SVD (2,3,4)/symEigDecomp/LeastSquares3/SparseCholesky/RCM+Permute/BiCGSTAB/RealRoots of degree 3-8 are checked through residual contracts at tolerance 1e-6 on well-conditioned generated inputs (kind 'resid'); their convergence and conditioning are floating-point analysis",
+        "VALIDATION ONLY, not proved: BezierCurve.Length (tolerance 1e-5*L+1e-7 against Eval chord sums and Split halves), RealRoots on known-root polynomials (tolerance 2^-17, kind realroots.q); 3x3/4x4 eigenvalues/SVD/symEigDecomp (the cubic formula goes through cmplx.Pow, Matrix4.SVD through the root finder; the 2x2 kernels are modelled, proved and compared bit for bit - see above - and additionally validated here)/LeastSquares3/SparseCholesky/RCM+Permute/BiCGSTAB/RealRoots of degree 3-8 are checked through residual contracts at tolerance 1e-6 on well-conditioned generated inputs (kind 'resid'), at unit scale and at every dyadic scale 2^k, k in [-40,40], with the residual relative to the matrix norm (1e-4 for Matrix4.SVD); rotations (libm cos/sin) through orthogonality/determinant/axis/composition/inverse contracts; their convergence and conditioning are floating-point analysis",
         "floating-point rounding is outside the theorems: they are over ordered fields; the exact mode ties the field instance to the code on inputs where float64 arithmetic is exact, the bit mode ties the operation order",
     ],
     assumptions=[
-        "matrices: Det() != 0 for the inverse theorems",
+        "matrices: Det() != 0 for the inverse theorems (the scale-covariance theorems hold for every matrix and every scale factor)",
+        "Matrix2 Eigenvalues/symEigDecomp/SVD theorems: exact arithmetic, math.Sqrt any function with sqrt(x)^2 = x and sqrt(x) >= 0 on x >= 0 (the real square root is one); no conditioning hypothesis",
+        "rotation theorems: unit axis, cos^2 + sin^2 = 1 at the angle used, sqrt(x)^2 = x on x > 0; R(-t) = R(t)^T additionally cos even / sin odd at t",
+        "scaled instances: dyadic scale factors 2^k with |k| <= 40, so that scaling is exact and no intermediate leaves the normal range of float64",
         "SegmentCurve: every segment has positive length (a zero-length segment makes Eval divide 0/0 at its own arclength)",
         "search optimisers: Stops >= 1 and the objective returns ordinary numbers (no NaN / -Inf)",
         "JoinedCurve.Eval: 0 <= t <= 1 (for t >= 1 + 1/n the Go code indexes out of range)",
@@ -38,7 +55,7 @@ PROP = dict(
     ],
     level_text=(
         "Theorems (Lean 4, all inputs, every linearly ordered field): 2x2/3x3 Inverse is a two-sided inverse when Det != 0, MulColumnInv solves, Det is multiplicative, "
-        "Transpose is an involution; Matrix4.CharPoly is det(xI - m); list polynomials Eval/Add/Mul/Scale/Derivative/divideRoot satisfy their defining equations and the "
+        "Transpose is an involution; Matrix4.CharPoly is det(xI - m); scale covariance: det(sM)=s^n det M, Inverse(sM)=s^-1 Inverse(M) and MulColumnInv likewise (all s, all M), eigenpairs, the quadratic/cubic of Matrix2/3.Eigenvalues are the characteristic polynomials and chi_{sM}(s x)=s^n chi_M(x) (2x2, 3x3, 4x4 CharPoly coefficient-wise), Gram matrices scale by s^2, U S V^T = M implies U (sS) V^T = sM; Matrix2.Eigenvalues returns the roots of the characteristic polynomial (real branch: ascending, sum trace, product det; complex branch: no real eigenvalue, the conjugate pair), Matrix2.symEigDecomp and Matrix2.SVD reconstruct EVERY (symmetric / arbitrary) 2x2 matrix with orthogonal factors and sorted non-negative singular values (sigma1^2+sigma2^2 = Frobenius^2, sigma1 sigma2 = |det|) for any sqrt with sqrt(x)^2 = x, sqrt(x) >= 0; rotation constructors (as regenerated from the source) are orthogonal with det 1, fix the axis and are inverted by the opposite angle; Vec3.Cross is orthogonal to its arguments, Normalize gives unit vectors, ProjectOut removes the component; list polynomials Eval/Add/Mul/Scale/Derivative/divideRoot satisfy their defining equations and the "
         "closed-form root branches return exactly the real roots and the Cauchy window of the bracketing branch contains every real root; CanonicalAngle returns the congruent angle in [0, tau) and AngleDist the circular distance; the binomial "
         "table regenerated from the source equals Nat.choose (kernel-decided); BezierCurve.Eval equals de Casteljau for every degree (closed forms, table branch, recursive "
         "fallback), Split reparametrises, Polynomials converts; SegmentCurve.Eval is the point at arclength fraction t; the grid/line/golden-section searches return a "
@@ -46,7 +63,7 @@ PROP = dict(
         "real Go code on exactly-representable inputs, and at Float bit-for-bit on arbitrary doubles."
     ),
     level_note=(
-        "Proved about the models in lean/M3d/Model/{Numeric,Curves,Search}.lean; libm-based and iterative kernels are only validated by residual contracts (not proved); "
+        "Proved about the models in lean/M3d/Model/{Numeric,Svd2,Curves,Search}.lean and, for rotations and the vector/matrix algebra, about the definitions regenerated from the source (lean/M3d/Gen/Kernels.lean); libm-based and iterative kernels are only validated by residual contracts (not proved); "
         "floating-point rounding itself is not modelled. Trusted: Lean kernel, propext/Classical.choice/Quot.sound, the Go harness and driver, the modelling of library calls listed above."
     ),
 )
